@@ -154,3 +154,84 @@ Definition play (k : skind) (st : option znode) (cs : list wcall) : option znode
 (* in any history, a call without overwrite on a location that holds a geff changes nothing *)
 Theorem history_refuse k st c : exists_geff k st = true -> c_ov c = false -> step k st c = (st, Err FileExistsError).
 Proof. intros He Ho. unfold step, run. rewrite Ho, (refuse k st _ _ true He). reflexivity. Qed.
+
+(* ---------- the graph-library writers: two guards in a row ---------- *)
+Lemma api_write_eq k g md v ov s :
+  api_write k g md v ov s = (overwrite_guard k ov ;; write_arrays k g md v false)%M s.
+Proof. unfold api_write, overwrite_guard, bind.
+  destruct (check_for_geff k s) as [s0 [ex|e]]; [|reflexivity].
+  destruct ((if ex then if ov then delete_geff k else fail FileExistsError else ret tt) s0) as [s1 [u|e]]; reflexivity. Qed.
+
+Theorem api_refuse k pre g md v :
+  exists_geff k pre = true ->
+  api_write k g md v false (init pre) = (init pre, Err FileExistsError).
+Proof. intros H. rewrite api_write_eq. unfold bind at 1. unfold overwrite_guard, bind at 1.
+  rewrite check_for_geff_spec. cbn [s_root init]. rewrite H. reflexivity. Qed.
+
+Lemma guard_skip k ov s : exists_geff k (s_root s) = false -> overwrite_guard k ov s = (s, Ok tt).
+Proof. intros H. unfold overwrite_guard, bind. rewrite check_for_geff_spec, H. reflexivity. Qed.
+
+(* nothing there: the wrapper adds nothing to write_arrays *)
+Theorem api_fresh k g md v ov s :
+  exists_geff k (s_root s) = false -> api_write k g md v ov s = write_arrays k g md v ov s.
+Proof. intros H. rewrite api_write_eq. unfold bind. rewrite (guard_skip k ov s H).
+  rewrite !write_arrays_eq. unfold bind. rewrite (guard_skip k false s H), (guard_skip k ov s H). reflexivity. Qed.
+
+(* overwrite=True over a geff: the wrapper deletes it; what happens next depends on whether the location still "holds a geff"
+   for the inner guard *)
+Lemma api_overwrite_tr k a ch g md v s tr :
+  s_root s = Some (ZG a ch) -> ahas "geff" a = true ->
+  delete_geff k s = (mkst (cleaned k a ch) tr, Ok tt) ->
+  api_write k g md v true s =
+    (if exists_geff k (cleaned k a ch)
+     then (mkst (cleaned k a ch) tr, Err FileExistsError)
+     else write_core k g md v (mkst (cleaned k a ch) tr)) /\
+  write_arrays k g md v true s = write_core k g md v (mkst (cleaned k a ch) tr).
+Proof. intros Hs Hg Hd.
+  assert (Hex : exists_geff k (Some (ZG a ch)) = true) by (destruct k; [reflexivity | exact Hg]).
+  split.
+  - rewrite api_write_eq. unfold bind at 1. unfold overwrite_guard at 1, bind at 1.
+    rewrite check_for_geff_spec, Hs, Hex, Hd.
+    rewrite write_arrays_eq. unfold bind at 1. unfold overwrite_guard at 1, bind at 1.
+    rewrite check_for_geff_spec. cbn [s_root].
+    destruct (exists_geff k (cleaned k a ch)); reflexivity.
+  - rewrite write_arrays_eq. unfold bind at 1. unfold overwrite_guard at 1, bind at 1.
+    rewrite check_for_geff_spec, Hs, Hex, Hd. reflexivity. Qed.
+
+Theorem api_overwrite k a ch g md v s :
+  s_root s = Some (ZG a ch) -> ahas "geff" a = true ->
+  exists tr,
+    api_write k g md v true s =
+    if exists_geff k (cleaned k a ch)
+    then (mkst (cleaned k a ch) tr, Err FileExistsError)
+    else write_core k g md v (mkst (cleaned k a ch) tr).
+Proof. intros Hs Hg. destruct (delete_geff_root k s a ch Hs Hg) as [tr Hd]. exists tr.
+  apply (api_overwrite_tr k a ch g md v s tr Hs Hg Hd). Qed.
+
+Lemma exists_geff_cleaned_obj a ch : exists_geff KObj (cleaned KObj a ch) = false.
+Proof. unfold cleaned, exists_geff.
+  assert (H : ahas "geff" (adel "geff" a) = false).
+  { destruct (ahas "geff" (adel "geff" a)) eqn:E; [|reflexivity]. apply ahas_true in E. destruct E as [x Hx].
+    rewrite alookup_adel_same in Hx. discriminate. }
+  destruct (adel path_EDGES (adel path_NODES ch)); exact H. Qed.
+
+(* geff.write(overwrite=True) over a geff behaves as write_arrays(overwrite=True) exactly when the location no longer counts as
+   occupied once the geff is deleted: always for store objects; for a path only when the directory held nothing but the geff *)
+Theorem api_overwrite_same k a ch g md v s :
+  s_root s = Some (ZG a ch) -> ahas "geff" a = true -> exists_geff k (cleaned k a ch) = false ->
+  api_write k g md v true s = write_arrays k g md v true s.
+Proof. intros Hs Hg Hc. destruct (delete_geff_root k s a ch Hs Hg) as [tr Hd].
+  destruct (api_overwrite_tr k a ch g md v s tr Hs Hg Hd) as [H1 H2]. rewrite Hc in H1. rewrite H1, H2. reflexivity. Qed.
+
+Theorem api_overwrite_obj a ch g md v s :
+  s_root s = Some (ZG a ch) -> ahas "geff" a = true ->
+  api_write KObj g md v true s = write_arrays KObj g md v true s.
+Proof. intros Hs Hg. apply (api_overwrite_same KObj a ch g md v s Hs Hg (exists_geff_cleaned_obj a ch)). Qed.
+
+(* a directory that holds the geff beside other members: the old geff is deleted, the write is refused, nothing is written *)
+Theorem api_overwrite_path_beside a ch g md v s :
+  s_root s = Some (ZG a ch) -> ahas "geff" a = true -> adel path_EDGES (adel path_NODES ch) <> [] ->
+  exists tr, api_write KPath g md v true s
+             = (mkst (Some (ZG (adel "geff" a) (adel path_EDGES (adel path_NODES ch)))) tr, Err FileExistsError).
+Proof. intros Hs Hg Hne. destruct (api_overwrite KPath a ch g md v s Hs Hg) as [tr H]. exists tr. rewrite H.
+  unfold cleaned. destruct (adel path_EDGES (adel path_NODES ch)) as [|kv r]; [contradiction|]. reflexivity. Qed.
